@@ -19,21 +19,44 @@ sys.path.insert(0, os.path.join(HERE, 'world'))
 import worldlib  # noqa: E402
 
 
-def snapshot_globals():
-    import traceback as tb
-    snap = {
-        'gc_threshold': list(gc.get_threshold()),
-        'gc_debug': gc.get_debug(),
-        'tb_format_exception': id(tb.format_exception),
-        'tb_print_exception': id(tb.print_exception),
-        'sys_trace': repr(sys.gettrace()),
-        'thr_trace': repr(getattr(threading, '_trace_hook', None)),
-        'sys_profile': repr(sys.getprofile()),
-        'thr_profile': repr(getattr(threading, '_profile_hook', None)),
-        'warn_filters': [repr(f) for f in warnings.filters],
-        'stdout': id(sys.stdout), 'stderr': id(sys.stderr),
-    }
-    return snap
+snapshot_globals = worldlib.snapshot_globals
+
+
+def _pre_trace(frame, event, arg):
+    return None
+
+
+def _pre_profile(frame, event, arg):
+    return None
+
+
+def apply_pre(pre):
+    """the state the caller of the runner had (C18): non-default values so
+    that 'restored' is distinguishable from 'reset to the default'"""
+    if not pre:
+        return
+    if pre.get('gc_threshold'):
+        gc.set_threshold(*pre['gc_threshold'])
+    if pre.get('gc_debug'):
+        gc.set_debug(pre['gc_debug'])
+    if pre.get('warn_filter'):
+        warnings.filterwarnings('ignore', message='verif-pre-existing-filter')
+    if pre.get('tb_patch'):
+        import traceback as tb
+        orig_f, orig_p = tb.format_exception, tb.print_exception
+        tb.format_exception = lambda *a, **k: orig_f(*a, **k)
+        tb.print_exception = lambda *a, **k: orig_p(*a, **k)
+    if pre.get('hooks'):
+        sys.settrace(_pre_trace)
+        threading.settrace(_pre_trace)
+        sys.setprofile(_pre_profile)
+
+
+def undo_pre():
+    sys.settrace(None)
+    threading.settrace(None)
+    sys.setprofile(None)
+    threading.setprofile(None)
 
 
 class RefResult(__import__('unittest').TestResult):
@@ -117,6 +140,8 @@ def compute_ref(spec):
 def run_job(job, scratch):
     if job.get('ref_only'):
         return {'id': job['id'], 'ref': compute_ref(job['world'])}
+    if job.get('chdir'):
+        os.chdir(scratch)
     from zope.testrunner.runner import Runner
     spec = job['world']
     log = worldlib.EventLog(None)
@@ -147,7 +172,10 @@ def run_job(job, scratch):
             args = ['zt'] + list(job['args'])
             runner = Runner(args=args, found_suites=[world.suite],
                             script_parts=[os.path.join(HERE, 'boot', 'zt.py')],
-                            cwd=scratch)
+                            cwd=scratch, warnings=job.get('warnings'))
+            if 'stdin' in job:
+                sys.stdin = io.StringIO(job['stdin'])
+            apply_pre(job.get('pre'))
             before = snapshot_globals()
             runner.run()
             res['failed'] = bool(runner.failed)
@@ -158,6 +186,9 @@ def run_job(job, scratch):
             res['crashed'] = type(e).__name__
             res['crash_tb'] = traceback.format_exc()[-3000:]
         after = snapshot_globals()
+        if job.get('pre'):
+            undo_pre()
+        res['before'], res['after'] = before or {}, after
         res['stdout_restored'] = sys.stdout is out
         res['stderr_restored'] = sys.stderr is err
         if before is not None:
